@@ -20,7 +20,7 @@ def tx_cases(ctx, tx, tag):
     for seg in (0, 1):
         # serialisation also through the generated (translated) Transaction.to_bytes, interpreted: requests below 20000 characters
         yield Case(f'tx_ser {line} {seg}', 'gms' if len(line) < 20000 else 'ms', nontrivial=nt, tag=tag)
-    yield Case(f'tx_ids {line}', 'ms', nontrivial=nt, tag=tag)
+    yield Case(f'tx_ids {line}', 'gms' if len(line) < 20000 else 'ms', nontrivial=nt, tag=tag)
     try:
         raw = tx.to_bytes(tx.has_segwit)
     except Exception:
